@@ -8,6 +8,7 @@ import OpusProofs.SilkParamsRangeInvGain
 import OpusProofs.SilkSynthIdxCore
 import OpusProofs.SilkSynthIdxHist
 import OpusProofs.SilkSynthIdxParams
+import OpusProofs.SilkSynthIdxOut
 /-
   C18 — SILK side information always dequantises to stable, in-range parameters.
 
@@ -697,5 +698,36 @@ example : extentsStr (paramsAccesses (ParamsIn.mk 16 4 2 2 [31, 0, 7, 31] 2 3 fa
   have := h ⟨.ltpVq2, 160, 165, false⟩ (by decide +kernel)
   revert this
   decide
+
+open Opus.SilkSynthIdx in
+/-- The OUTPUT STAGE of `silk_Decode` (silk/dec_API.c:311-420, silk/stereo_MS_to_LR.c, top level of
+    silk/resampler.c) is index-safe for EVERY legal configuration: internal rate 8/12/16 kHz, 10 or 20 ms frames,
+    1 or 2 internal and API channels, API rate 8/12/16/24/48 kHz, with or without a decoded side channel, with or
+    without the stereo→mono extra resampler call, decoded or lost frame, first stereo call or not (1920 cases,
+    kernel-evaluated with the regenerated `delay_matrix_dec`).  In bounds — each ROW of the frame buffer separately: `samplesOut1_tmp[n][frame_length + 2]` (decoded /
+    zeroed samples at `[2, frame_length + 2)`, the two history samples, all reads `x1[n], x1[n+1], x1[n+2], x2[n+1]` of
+    silk_stereo_MS_to_LR incl. the interpolation over `STEREO_INTERP_LEN_MS·fs_kHz ≤ frame_length` samples, the
+    resampler input `&samplesOut1_tmp[n][1]` of `frame_length` samples), `sMid` / `sSide` / `pred_prev_Q13`,
+    `samplesOut2_tmp` (`nSamplesOut = frame_length·API_rate/(fs_kHz·1000)`), the `delayBuf[48]` indices
+    `[inputDelay, Fs_in_kHz)` and `[0, inputDelay)` for every (in, out) rate pair, the (de-)interleaved writes into
+    the caller's `nChannelsAPI·nSamplesOut` buffer; neither `celt_assert` of silk_resampler fires.  The three
+    resampling kernels enter as contracts (read `inLen` inputs, write `inLen·Fs_out/Fs_in` outputs), which the
+    recorder tie observes on the repo's kernels for all 15 rate pairs. -/
+theorem decode_output_indices_in_bounds (fs : Int) (nb : Nat) (nci nca api : Int) (hs stm lost sst : Bool)
+    (hfs : fs = 8 ∨ fs = 12 ∨ fs = 16) (hnb : nb = 2 ∨ nb = 4) (hci : nci = 1 ∨ nci = 2) (hca : nca = 1 ∨ nca = 2)
+    (hapi : api = 8000 ∨ api = 12000 ∨ api = 16000 ∨ api = 24000 ∨ api = 48000) :
+    (outAccesses ⟨fs, nb, nci, nca, api, hs, stm, lost, sst⟩).aborted = false ∧
+    AllIn (OutIn.cfg ⟨fs, nb, nci, nca, api, hs, stm, lost, sst⟩) (outAccesses ⟨fs, nb, nci, nca, api, hs, stm, lost, sst⟩).all ∧
+    [8000, 12000, 16000, 24000, 48000].map rateId = SilkSynth.rateIds :=
+  ⟨(outAccesses_ok fs nb nci nca api hs stm lost sst hfs hnb hci hca hapi).1,
+   (outAccesses_ok fs nb nci nca api hs stm lost sst hfs hnb hci hca hapi).2, rateId_ok.1⟩
+
+open Opus.SilkSynthIdx in
+/- WB stereo 20 ms to 48 kHz stereo: each row of the frame buffer is used up to its last element 321 (of 322), never
+   beyond; 960 samples per channel out; the storage has 2·322 elements -/
+example : extentsStr (outAccesses ⟨16, 4, 2, 2, 48000, true, false, false, false⟩).all [.tmp0, .tmp1, .out2, .samplesOut, .delayBuf1] =
+    "tmp0:r=0..321,w=0..321 tmp1:r=1..321,w=0..321 samplesOut2_tmp:r=0..959,w=0..959 samplesOut:r=-,w=0..1919 delayBuf1:r=0..15,w=0..15" ∧
+    inputDelay 16 48000 = 7 ∧ Arr.size (OutIn.cfg ⟨16, 4, 2, 2, 48000, true, false, false, false⟩) .tmpStore = 644 := by
+  decide +kernel
 
 end OpusProps.C18
